@@ -502,8 +502,12 @@ type state struct {
 	residue   []string
 }
 
-func (n *node) observe() *state {
-	st := &state{}
+// light: only what the getters and the recipients table show (no key manager, decided store or
+// fresh reload) - used by the generator's scratch node and inside the one-event-per-block run.
+func (n *node) observe() *state { return n.observeLevel(true) }
+
+func (n *node) observeLevel(full bool) *state {
+	st := &state{memdb: true}
 	// operators
 	ops, err := n.storage.ListOperators(nil, 0, 0)
 	if err != nil {
@@ -556,6 +560,9 @@ func (n *node) observe() *state {
 		last = big.NewInt(0)
 	}
 	st.last = fmt.Sprintf("last %d", last.Uint64())
+	if !full {
+		return st
+	}
 	// key manager, as a freshly opened wallet sees it: the index entries whose account object loads
 	// (AccountByPublicKey, the test AddShare / RemoveShare make), and the raw slashing-record tables
 	sst := ekm.NewSignerStorage(n.inner, netcfg.Beacon, nopLogger)
